@@ -434,6 +434,10 @@ func (s *Service) accountPathsToVerificationRegexes(paths []string) map[string][
 		if len(parts) == 1 {
 			parts = append(parts, ".*")
 		}
+		if len(parts) > 2 {
+			// Everything after the wallet is the account part; do not drop what follows a further separator.
+			parts[1] = strings.Join(parts[1:], "/")
+		}
 		if parts[1] == "" {
 			parts[1] = ".*"
 		}
